@@ -883,4 +883,32 @@ example : (Rxn.mk [-1, -1, 1, 1] 1 (2/5)).rebalance .mol [] [-1, -2, 2, 1]
 
 
 
+/-! ## `Reaction.reset_chemicals`: the same reaction over another property package -/
+
+/-- After `reset_chemicals` the reactant is still the same chemical (the index is looked up again by
+identity in the new package, in the same phase row), the conversion is unchanged, and every phase row of
+the stoichiometry holds, chemical by chemical, the coefficients it held before. -/
+theorem repackage_same_reaction (src dst : List Nat) (nrows : Nat) (rx rx' : Rxn)
+    (h : rx.repackage src dst nrows = .ok rx') :
+    dst.getD (rx'.r % dst.length) 0 = src.getD (rx.r % src.length) 0 ∧
+      rx'.r / dst.length = rx.r / src.length ∧ rx'.X = rx.X ∧
+      ∃ rows', rx'.nu = rows'.flatten ∧
+        List.Forall₂ (fun row row' => ∀ u, lift dst row' u = lift src row u)
+          (chunk src.length nrows rx.nu) rows' := by
+  obtain ⟨rows', j, hrows, hj, hnu, hr, hX⟩ := repackage_ok src dst nrows rx rx' h
+  obtain ⟨hjl, hjv⟩ := idxOf?_getD dst _ j hj
+  have hpos : 0 < dst.length := by omega
+  refine ⟨?_, ?_, hX, rows', hnu, ?_⟩
+  · rw [hr, Nat.mul_add_mod_of_lt hjl]; exact hjv
+  · rw [hr, Nat.add_comm, Nat.add_mul_div_right _ _ hpos, Nat.div_eq_of_lt hjl, Nat.zero_add]
+  · have := remapRows_ok src dst _ rows' hrows
+    exact this.imp (fun {row row'} hrow u => remap_keeps_every_chemical src dst row row' hrow u)
+
+/-- non-vacuity: A → B (reactant A, second phase row) moved from package (A, B, C) to (C, A) fails for
+want of B; to (B, C, A) it becomes column 2 of the second row -/
+example : (Rxn.mk [0, 0, 0, -1, 1, 0] 3 (1/2)).repackage [0, 1, 2] [1, 2, 0] 2
+      = .ok ⟨[0, 0, 0, 1, 0, -1], 5, 1/2⟩ ∧
+    (Rxn.mk [0, 0, 0, -1, 1, 0] 3 (1/2)).repackage [0, 1, 2] [2, 0] 2 = .error .undefinedChemical := by
+  constructor <;> decide +kernel
+
 end ThermoVerif.Props.C05
